@@ -413,6 +413,18 @@ def check_exact_root_exits(run, ix):
         else:
             run.fail(Finding('E-X1', LIBELE, 'exact_nthroot', norm(r), 'a candidate root is returned without the '
                              'exact test c**n == man', line=r.lineno))
+    # the size bound: `K > prec -> None` with K = ceil(bc / n), the bit length of an n-th root of a bc-bit mantissa
+    # (a floor under-estimates it by one for almost every root: a (prec+1)-bit root is then returned unrounded)
+    kdefs = [a for a in _walk_own(h.node) if isinstance(a, ast.Assign) and norm(a.targets[0]) == 'k']
+    ceil_forms = ('(bc + n - 1) // n', '(bc + (n - 1)) // n', '-(-bc // n)', '(n + bc - 1) // n')
+    if kdefs and all(norm(a.value) in ceil_forms for a in kdefs):
+        run.ok('E-X1', 'exact_nthroot: the size bound uses k = ceil(bc / n)')
+    else:
+        run.fail(Finding('E-X1', LIBELE, 'exact_nthroot', norm(kdefs[0]) if kdefs else 'def exact_nthroot',
+                         'the bit length of the root is not estimated by the ceiling of bc/n (`%s`): a root of prec+1 '
+                         'bits passes `k > prec` and is returned unrounded (root((2**53+1)**3, 3) at 53 bits has a '
+                         '54-bit mantissa)' % (norm(kdefs[0].value) if kdefs else '?'),
+                         line=kdefs[0].lineno if kdefs else h.lineno))
     tests = [norm(t.test) for t in _walk_own(h.node) if isinstance(t, ast.If)]
     for need, why in (('exp % n', 'an exponent that is not a multiple of n'), ('k > prec', 'a root longer than prec')):
         if any(need in t for t in tests):
